@@ -162,6 +162,13 @@ def rows():
         out.append(("for-each", "length-%d" % n, ["PROC", mklist(xs)], ref_each, True))
         out.append(("fold-left", "length-%d" % n, ["PROC", INIT, mklist(xs)], ref_fl, True))
         out.append(("fold-right", "length-%d" % n, ["PROC", INIT, mklist(xs)], ref_fr, True))
+        # what the procedure returns is its own business: the same rows with a procedure that returns #f at its first / second call
+        for k in range(1, n):
+            fz = frozenset([k])
+            out.append(("map", "length-%d/call-%d-returns-#f" % (n, k), ["PROC", mklist(xs)], ref_map, fz))
+            out.append(("for-each", "length-%d/call-%d-returns-#f" % (n, k), ["PROC", mklist(xs)], ref_each, fz))
+            out.append(("fold-left", "length-%d/call-%d-returns-#f" % (n, k), ["PROC", INIT, mklist(xs)], ref_fl, fz))
+            out.append(("fold-right", "length-%d/call-%d-returns-#f" % (n, k), ["PROC", INIT, mklist(xs)], ref_fr, fz))
     # ---- list-tail / list-ref / last-pair
     for n in range(0, 4):
         for tail_label, tail in (("proper", NIL), ("improper", Atom("tail"))):
@@ -228,12 +235,13 @@ def rule_list_library(ctx, rule):
             continue                      # supplied natively: decided on the Rust side
         st = per.setdefault(name, {"rows": 0, "bad": None, "undecided": None})
         tr_got, tr_ref = [], []
-        P_got, P_ref = OpaqueProc("P", tr_got), OpaqueProc("P", tr_ref)
+        falsy = uses_proc if isinstance(uses_proc, frozenset) else frozenset()
+        P_got, P_ref = OpaqueProc("P", tr_got, falsy), OpaqueProc("P", tr_ref, falsy)
         a_got = [P_got if a == "PROC" else a for a in args]
 
         def call_ref(*xs):
             P_ref.k += 1
-            r = Atom("P#%d" % P_ref.k)
+            r = False if P_ref.k in falsy else Atom("P#%d" % P_ref.k)
             tr_ref.append(tuple(xs))
             return r
         try:
